@@ -1044,6 +1044,12 @@ func (c *CEnv) callExpr(e *CE, hint *Value) Value {
 		return c.mathInt(a.Loc.Elems[len(a.Loc.Elems)-1])
 	case "addr":
 		// addr(v): the address of the local variable v of the function under contract (&v)
+		if len(e.Args) == 1 && (e.Args[0].Kind == "field" || e.Args[0].Kind == "index") {
+			// addr(p.f) / addr(s[i]): the address of a field or element (an interior pointer), comparable
+			// with the pointer a call receives
+			l := c.evalLoc(e.Args[0], c.heap())
+			return Value{T: types.NewPointer(l.T), K: KPtr, Loc: l}
+		}
 		if len(e.Args) != 1 || e.Args[0].Kind != "id" || c.fr == nil {
 			c.fail("addr() needs the name of a local variable: %s", e)
 		}
